@@ -331,6 +331,40 @@ func init() {
 			c.Fact("preflight.maxbytes_arg", arg)
 			c.Fact("preflight.maxbytes_guard", condOfIfContaining(c, sh, "http.MaxBytesReader"))
 		}
+		// the client's list cache (mcp/cache.go) as the session model (Preflight/Seq.lean) transliterates it: what an
+		// invalidation does, when a result is stored, and the order of ListTools
+		for _, n := range []string{"invalidate", "putIfCurrent", "gen"} {
+			if fd := c.Func("mcp", "methodCache", n); fd != nil {
+				var stmts []string
+				for _, st := range fd.Body.List {
+					src := strings.Join(strings.Fields(c.Src(st)), " ")
+					if strings.Contains(src, "mu.Lock()") || strings.Contains(src, "mu.Unlock()") {
+						continue
+					}
+					stmts = append(stmts, src)
+				}
+				c.Fact("preflight.cache."+n, stmts)
+			} else {
+				c.Errf("preflight: methodCache.%s not found", n)
+			}
+		}
+		if fd := c.Func("mcp", "ClientSession", "ListTools"); fd != nil {
+			var calls []string
+			ast.Inspect(fd.Body, func(x ast.Node) bool {
+				if ce, ok := x.(*ast.CallExpr); ok {
+					f := c.Src(ce.Fun)
+					for _, want := range []string{"cachedListResult", "toolsCache.gen", "handleSend", "filterValidTools", "toolsCache.putIfCurrent", "toolsCache.put"} {
+						if strings.HasSuffix(f, want) || strings.HasPrefix(f, want+"[") {
+							calls = append(calls, want)
+						}
+					}
+				}
+				return true
+			})
+			c.Fact("preflight.order.ClientSession.ListTools", calls)
+		} else {
+			c.Errf("preflight: ClientSession.ListTools not found")
+		}
 		_ = sort.Strings
 	})
 }
